@@ -15,7 +15,7 @@ RULE = ('Hypothesis workbook specs (1-2 books x 1-2 sheets, array-formula ranges
         '(write(books=model.books), so that untouched cells exist), and disk (write(dirpath) read back with openpyxl data_only). '
         'Oracle: every cell of every solved node (flattened solution) is found at its own book/sheet/coordinates with the '
         'normalised value (errors as text, blank and "" as empty); cells of loaded books outside the solution keep value and type; '
-        'model.compare(*written files) == []. Non-trivial = solution has a multi-cell node, >= 2 sheets and an error or blank; '
+        'model.compare(*written files) == [] (with the solution, without it, and without it after a later what-if calculation on the same model). Non-trivial = solution has a multi-cell node, >= 2 sheets and an error or blank; '
         'distinct by (spec, overrides, sink).')
 ASSUMPTIONS = ['the solution itself is taken from the model (its correctness is C03/C07); circular models are not written']
 WATCHDOG_S = 120
@@ -193,6 +193,21 @@ def check_spec(case):
                     diff = m.compare(*files, solution=sol)
                     if diff:
                         fails.append(('compare|nonempty', 'compare() reports %s' % (diff[:3],)))
+                    diff = m.compare(*files)
+                    if diff:
+                        fails.append(('compare|nonempty-default-solution', 'compare() without solution= reports %s' % (diff[:3],)))
+                    # a later what-if calculation on the same model does not change what the model is
+                    whatif = {}
+                    for c_ in spec['cells']:
+                        if 'f' not in c_ and isinstance(c_.get('v'), float):
+                            nid = _find_node(m, spec, tuple(c_['at']))
+                            if nid is not None:
+                                whatif[nid] = c_['v'] + 1.0
+                    if whatif:
+                        m.calculate(inputs=whatif)
+                        diff = m.compare(*files)
+                        if diff:
+                            fails.append(('compare|nonempty-after-whatif', 'after calculate(inputs=...) on the same model, compare() reports %s' % (diff[:3],)))
                 except sut.Watchdog:
                     raise
                 except Exception as ex:
